@@ -664,6 +664,22 @@ def run_check(prop, tier, seed):
             first_report_composed(ck, prog, seed)
         except EngineError as e:
             ck.inconclusive.append('first report through the real classifier: %s' % e)
+        # what clients SEE: the records the daemon publishes before a first measurement are stored with status Unknown (above); the
+        # client's evaluation of a record stored as Unknown is Unknown at every instant (any as_of / void_after, in particular the
+        # placeholder as_of = 0, void_after = 1000 s evaluated at an uptime below 1000 s)
+        if not ck.violations:
+            try:
+                from . import client_now
+                sub = client_now.run_check('C06', tier, seed, owner='C09', restrict=lambda v: v['st'] == 0)
+                for key, desc, path in sub.violations:
+                    ck.violations.append(('client:' + key, 'a record the daemon stored with status Unknown, evaluated by the client: ' + desc, path))
+                ck.inconclusive += ['client evaluation of Unknown records: ' + i for i in sub.inconclusive]
+                for k_ in ('obligations', 'discharged', 'queries', 'evaluations', 'distinct_nontrivial'):
+                    ck.cov[k_] = ck.cov.get(k_, 0) + sub.cov.get(k_, 0)
+                ck.cov['solver_time_s'] = round(ck.cov.get('solver_time_s', 0) + sub.cov.get('solver_time_s', 0), 2)
+                ck.cov['client_part'] = 'ClockErrorBound::now() on every record stored with status Unknown: the answer is Unknown (clauses of C06 restricted to stored status 0; native replay)'
+            except EngineError as e:
+                ck.inconclusive.append('client evaluation of Unknown records: %s' % e)
     ck.cov['functions_encoded'] = sorted({n.split('>::')[-1] if '>::' in n else n for n in um.ex.inlined})
     ck.cov['mir_dump_s'] = round(mir_wall, 1)
     ck.cov['counterexamples_replayed'], ck.cov['counterexamples_confirmed'] = stats
